@@ -265,6 +265,44 @@ fn future_await() {
     h.join().unwrap();
 }
 
+/// no pool thread: the first sync drains the queue on its own thread and parks behind the suspended
+/// operation; the second sync must wait, not take the parked queue over
+fn sync_while_parked_in_drain() {
+    scheduler().set_max_threads(0);
+    scheduler().despawn_threads_if_overloaded();
+    let d = Arc::new(Desync::new(Payload::new()));
+    let (tx, rx) = oneshot::channel::<()>();
+    d.future_desync(move |p| {
+        async move {
+            p.touch(1);
+            rx.await.ok();
+            p.touch(2);
+        }
+        .boxed()
+    })
+    .detach();
+    let d2 = d.clone();
+    let a = thread::spawn(move || d2.sync(|p| p.touch(3)));
+    let d3 = d.clone();
+    let b = thread::spawn(move || {
+        thread::yield_now();
+        d3.sync(|p| p.touch(4))
+    });
+    let d4 = d.clone();
+    let c = thread::spawn(move || {
+        thread::yield_now();
+        drop(d4);
+    });
+    for _ in 0..4 {
+        thread::yield_now();
+    }
+    tx.send(()).ok();
+    a.join().unwrap();
+    b.join().unwrap();
+    c.join().unwrap();
+    assert!(d.sync(|p| p.items.len()) > 0);
+}
+
 fn main() {
     let prog = std::env::args().nth(1).unwrap_or_default();
     // a small pool keeps the thread count (and Miri's run time) down without changing the code paths
@@ -279,6 +317,7 @@ fn main() {
         "pipe_in_drop" => pipe_in_drop(),
         "nested_sync" => nested_sync(),
         "future_await" => future_await(),
+        "sync_while_parked_in_drain" => sync_while_parked_in_drain(),
         other => {
             eprintln!("unknown program {:?}", other);
             std::process::exit(3);
